@@ -62,6 +62,10 @@ Proof. exact generated_shapes_tables_req. Qed.
 Theorem c18_modelled_functions_unchanged_tables_info : shapes_hold fn_shapes shapes_tables_info = true.
 Proof. exact generated_shapes_tables_info. Qed.
 
+(* the cargo features are independent switches with nothing on by default: a feature set of the model means exactly its cfgs *)
+Theorem c18_feature_table_unchanged : features_hold cargo_features = true.
+Proof. exact generated_features. Qed.
+
 Eval vm_compute in "ASSUMPTIONS c18_generated_enums_exact". Print Assumptions c18_generated_enums_exact.
 Eval vm_compute in "ASSUMPTIONS c18_spec_enums_exact". Print Assumptions c18_spec_enums_exact.
 Eval vm_compute in "ASSUMPTIONS c18_distinct". Print Assumptions c18_distinct.
@@ -77,3 +81,4 @@ Eval vm_compute in "ASSUMPTIONS c18_modelled_dependencies_pinned". Print Assumpt
 Eval vm_compute in "ASSUMPTIONS c18_modelled_functions_unchanged_tables_op". Print Assumptions c18_modelled_functions_unchanged_tables_op.
 Eval vm_compute in "ASSUMPTIONS c18_modelled_functions_unchanged_tables_req". Print Assumptions c18_modelled_functions_unchanged_tables_req.
 Eval vm_compute in "ASSUMPTIONS c18_modelled_functions_unchanged_tables_info". Print Assumptions c18_modelled_functions_unchanged_tables_info.
+Eval vm_compute in "ASSUMPTIONS c18_feature_table_unchanged". Print Assumptions c18_feature_table_unchanged.
